@@ -256,7 +256,14 @@ bool RewindScript(InterpreterEnv& env)
 bool ContinueScript(InterpreterEnv& env)
 {
     while (!env.done) {
-        if (!StepScript(env)) return false;
+        try {
+            if (!StepScript(env)) return false;
+        } catch (const std::exception& ex) {
+            // script number overflow, non-minimal numbers and pops of an empty stack are raised as exceptions by
+            // the interpreter; they are failures of the script, not of the program
+            fprintf(stderr, "exception thrown: %s\n", ex.what());
+            return set_error(env.serror, SCRIPT_ERR_UNKNOWN_ERROR);
+        }
     }
     return true;
 }
